@@ -26,13 +26,40 @@ def num(k) -> Rat:
 
 
 class Key:
-    """A variable key (Var object / str)."""
+    """A variable key (Var object / str); equal by name."""
 
     def __init__(self, name: str):
         self.name = name
 
+    def __eq__(self, other):
+        return isinstance(other, Key) and other.name == self.name
+
+    def __hash__(self):
+        return hash(("key", self.name))
+
     def __repr__(self):
         return "<%s>" % self.name
+
+
+class LinV:
+    """A symbolic linear expression (what sympy would hold): {Key: Rat} + constant."""
+
+    def __init__(self, coefs=None, const=None):
+        self.coefs: Dict[Key, Rat] = dict(coefs or {})
+        self.const: Rat = const if const is not None else num(0)
+
+    def add(self, o, sign=1):
+        r = LinV(self.coefs, self.const)
+        if isinstance(o, Rat):
+            r.const = r.const + (o if sign == 1 else -o)
+            return r
+        for k, v in o.coefs.items():
+            r.coefs[k] = r.coefs.get(k, num(0)) + (v if sign == 1 else -v)
+        r.const = r.const + (o.const if sign == 1 else -o.const)
+        return r
+
+    def scale(self, f: Rat):
+        return LinV({k: v * f for k, v in self.coefs.items()}, self.const * f)
 
 
 class DictV:
@@ -327,6 +354,8 @@ class TermAlg:
             return ("builtin", e.id)
         if e.id in ("product", "reduce"):
             return ("builtin", e.id)
+        if fi is not None and e.id in fi.module.imports and not fi.module.imports[e.id].startswith("pacti"):
+            return ("extmod", fi.module.imports[e.id])
         if e.id == "Var":
             return ("builtin", "Var")
         raise AnalysisError("unknown name %s in %s" % (e.id, self.fstack[-1].key if self.fstack else "?"))
@@ -342,6 +371,10 @@ class TermAlg:
                     return self.call(fi, [], {}, self_val=b)
                 return ("bound", b, fi)
             raise AnalysisError("unknown attribute %s.%s" % (b.cls, e.attr))
+        if isinstance(b, tuple) and b and b[0] == "extmod":
+            return ("extmod", b[1] + "." + e.attr)
+        if isinstance(b, LinV):
+            return ("linm", b, e.attr)
         if isinstance(b, DictV):
             return ("dictm", b, e.attr)
         if isinstance(b, ListV):
@@ -371,7 +404,7 @@ class TermAlg:
                 return int(c)
             return ListV(b.items[bound(e.slice.lower):bound(e.slice.upper):bound(e.slice.step)])
         k = self.eval(e.slice, env)
-        if isinstance(b, DictV) and isinstance(k, Key):
+        if isinstance(b, DictV) and isinstance(k, (Key, Rat)):
             if k not in b.d:
                 raise Raised("KeyError")
             return b.d[k]
@@ -440,6 +473,8 @@ class TermAlg:
         v = self.eval(e.operand, env)
         if isinstance(e.op, ast.USub) and isinstance(v, Rat):
             return -v
+        if isinstance(e.op, ast.USub) and isinstance(v, LinV):
+            return v.scale(num(-1))
         if isinstance(e.op, ast.Not):
             return not self.truth(v, e.operand)
         raise AnalysisError("unary %s" % norm(e))
@@ -470,6 +505,17 @@ class TermAlg:
                 if r.is_zero():
                     raise Raised("ZeroDivisionError")
                 return l / r
+        if isinstance(l, LinV) or isinstance(r, LinV):
+            if isinstance(op, ast.Add):
+                return (l if isinstance(l, LinV) else LinV(const=l)).add(r)
+            if isinstance(op, ast.Sub):
+                return (l if isinstance(l, LinV) else LinV(const=l)).add(r, -1)
+            if isinstance(op, ast.Mult) and isinstance(l, LinV) and isinstance(r, Rat):
+                return l.scale(r)
+            if isinstance(op, ast.Mult) and isinstance(r, LinV) and isinstance(l, Rat):
+                return r.scale(l)
+            if isinstance(op, ast.Div) and isinstance(l, LinV) and isinstance(r, Rat):
+                return l.scale(num(1) / r)
         if isinstance(l, ListV) and isinstance(r, ListV) and isinstance(op, ast.Add):
             return ListV(l.items + r.items)
         if isinstance(l, Rec) and isinstance(r, Rec) and isinstance(op, ast.Add):
@@ -529,7 +575,7 @@ class TermAlg:
 
     def same(self, a, b) -> bool:
         if isinstance(a, Key) and isinstance(b, Key):
-            return a is b
+            return a == b
         if isinstance(a, tuple) and isinstance(b, tuple):
             return a == b
         return a is b
@@ -575,6 +621,16 @@ class TermAlg:
         f = self.eval(e.func, env) if not (isinstance(e.func, ast.Attribute) and norm(e.func).startswith("logging.")) else ("ignore",)
         if f == ("ignore",):
             return NONE
+        if isinstance(f, tuple) and f == ("builtin", "isinstance") and len(e.args) == 2 and isinstance(e.args[1], ast.Tuple):
+            v0 = self.eval(e.args[0], env)
+            tname = norm(e.args[1])
+            if isinstance(v0, Key):
+                return "Symbol" in tname or "str" in tname
+            if isinstance(v0, Rat):
+                return "float" in tname or "int" in tname
+            if isinstance(v0, tuple) and v0 and v0[0] == "str":
+                return "str" in tname
+            return False
         if isinstance(f, tuple) and f == ("builtin", "isinstance") and len(e.args) == 2:
             root = e.args[1]
             while isinstance(root, ast.Attribute):
@@ -587,7 +643,11 @@ class TermAlg:
             return self.call(f, pos, kw)
         if f.__class__.__name__ == "ClassInfo":
             if f.name == "Var":
-                return pos[0] if pos and isinstance(pos[0], Key) else Key("v?")
+                if pos and isinstance(pos[0], Key):
+                    return pos[0]
+                if pos and isinstance(pos[0], tuple) and pos[0][0] == "str":
+                    return Key(pos[0][1])
+                return Key("v?")
             return self.construct(f.name, pos, kw)
         if isinstance(f, tuple):
             t = f[0]
@@ -601,6 +661,20 @@ class TermAlg:
                 if fi.kind == "static":
                     return self.call(fi, pos, kw)
                 return self.call(fi, pos[1:], kw, self_val=pos[0])
+            if t == "extmod":
+                if f[1].endswith("sympy.symbols") and pos and isinstance(pos[0], tuple) and pos[0][0] == "str":
+                    return LinV({Key(pos[0][1]): num(1)})
+                raise AnalysisError("external call %s outside the kernel fragment in %s" % (f[1], self.fstack[-1].key))
+            if t == "linm":
+                if f[2] == "as_coefficients_dict":
+                    d = DictV()
+                    for k_, v_ in f[1].coefs.items():
+                        if not v_.is_zero():
+                            d.d[k_] = v_
+                    if not f[1].const.is_zero():
+                        d.d[num(1)] = f[1].const  # sympy keys the constant part by the number 1
+                    return d
+                raise AnalysisError("sympy method %s outside the kernel fragment" % f[2])
             if t == "dictm":
                 d, name = f[1], f[2]
                 if name == "items":
@@ -660,6 +734,10 @@ class TermAlg:
                 if n == "isinstance":
                     tname = norm(e.args[1])
                     v = pos[0]
+                    if isinstance(v, Key) and "Symbol" in tname:
+                        return True
+                    if isinstance(v, Rat) and "Symbol" in tname and "float" not in tname:
+                        return False
                     if isinstance(pos[1], tuple) and pos[1] and pos[1][0] == "typeof":
                         o = pos[1][1]
                         return isinstance(v, Rec) and isinstance(o, Rec) and self.prog.is_subclass(v.cls, o.cls)
